@@ -84,7 +84,7 @@ def parseOracle (v : String) : Option SearchRes :=
     | _ => none
   | _ => none
 
-def mkEnv (basis : Array W) (t : TeiTable) (strict : Bool) : Env :=
+private def mkEnv (basis : Array W) (t : TeiTable) (strict : Bool) : Env :=
   { basis := basis
     parseMove := fun tok => lookupRes t.moves (hexOfString tok) parseMove
     parseTPS := fun s => lookupRes t.tps (hexOfString s) (fun v => (parsePos v).map (·.1))
